@@ -7,6 +7,8 @@
      hlim/coreNodes/Node_Signal.cpp   connectInput (the "type may not change while consumers are attached" guard)
      hlim/Circuit.h     createNode (ids from m_nextNodeId), createClock; NodeGroup::addChildNodeGroup
      hlim/Clock.h       m_clockedNodes is a *set* (utils::UnstableSet): emplace / erase
+     hlim/Clock.cpp     setLogicClockDriver / setLogicResetDriver (m_clockDriver / m_resetDriver vs. the clock port of the
+                        Node_Signal2Clk / Node_Signal2Rst), frontend Clock::overrideClkWith / overrideRstWith / reset(signal)
 
    A node reference is the node's id ([N], Circuit::m_nextNodeId); a destroyed node is simply absent
    from the store, so "refers to a destroyed node" = "mentions an id that has no entry".
@@ -175,7 +177,8 @@ Record node := mkNode {
   n_grp  : option N;               (* BaseNode::m_nodeGroup *)
   n_clks : list (option N);        (* BaseNode::m_clocks *)
   n_ref  : N;                      (* BaseNode::m_refCounter *)
-  n_req  : list constr             (* what this node's kind requires of its input types *)
+  n_req  : list constr;            (* what this node's kind requires of its input types *)
+  n_role : N                       (* 0 ordinary, 1 Node_Signal2Clk, 2 Node_Signal2Rst (the nodes a Clock names as its logic drivers) *)
 }.
 
 Record group := mkGroup {
@@ -187,20 +190,22 @@ Record graph := mkGraph {
   g_nodes  : amap node;            (* live nodes (Circuit::m_nodes) *)
   g_groups : amap group;           (* the group tree of this circuit *)
   g_clocks : amap (list nport);    (* Clock::m_clockedNodes of every clock of this circuit *)
+  g_drv    : amap (option N * option N);   (* Clock::m_clockDriver, Clock::m_resetDriver of every clock *)
   g_next   : N;                    (* Circuit::m_nextNodeId *)
   g_gnext  : N;                    (* Circuit::m_nextGroupId *)
   g_cnext  : N                     (* Circuit::m_nextClockId *)
 }.
 
-Definition with_nodes g m := mkGraph m (g_groups g) (g_clocks g) (g_next g) (g_gnext g) (g_cnext g).
-Definition with_groups g m := mkGraph (g_nodes g) m (g_clocks g) (g_next g) (g_gnext g) (g_cnext g).
-Definition with_clocks g m := mkGraph (g_nodes g) (g_groups g) m (g_next g) (g_gnext g) (g_cnext g).
+Definition with_nodes g m := mkGraph m (g_groups g) (g_clocks g) (g_drv g) (g_next g) (g_gnext g) (g_cnext g).
+Definition with_groups g m := mkGraph (g_nodes g) m (g_clocks g) (g_drv g) (g_next g) (g_gnext g) (g_cnext g).
+Definition with_clocks g m := mkGraph (g_nodes g) (g_groups g) m (g_drv g) (g_next g) (g_gnext g) (g_cnext g).
+Definition with_drv g m := mkGraph (g_nodes g) (g_groups g) (g_clocks g) m (g_next g) (g_gnext g) (g_cnext g).
 
-Definition with_ins nd l := mkNode l (n_outs nd) (n_grp nd) (n_clks nd) (n_ref nd) (n_req nd).
-Definition with_outs nd l := mkNode (n_ins nd) l (n_grp nd) (n_clks nd) (n_ref nd) (n_req nd).
-Definition with_grp nd v := mkNode (n_ins nd) (n_outs nd) v (n_clks nd) (n_ref nd) (n_req nd).
-Definition with_clks nd l := mkNode (n_ins nd) (n_outs nd) (n_grp nd) l (n_ref nd) (n_req nd).
-Definition with_ref nd r := mkNode (n_ins nd) (n_outs nd) (n_grp nd) (n_clks nd) r (n_req nd).
+Definition with_ins nd l := mkNode l (n_outs nd) (n_grp nd) (n_clks nd) (n_ref nd) (n_req nd) (n_role nd).
+Definition with_outs nd l := mkNode (n_ins nd) l (n_grp nd) (n_clks nd) (n_ref nd) (n_req nd) (n_role nd).
+Definition with_grp nd v := mkNode (n_ins nd) (n_outs nd) v (n_clks nd) (n_ref nd) (n_req nd) (n_role nd).
+Definition with_clks nd l := mkNode (n_ins nd) (n_outs nd) (n_grp nd) l (n_ref nd) (n_req nd) (n_role nd).
+Definition with_ref nd r := mkNode (n_ins nd) (n_outs nd) (n_grp nd) (n_clks nd) r (n_req nd) (n_role nd).
 
 (* ---- the views: both directions of each relation, total on all ids ---- *)
 Definition getn (g : graph) (n : N) : option node := get n (g_nodes g).
@@ -411,17 +416,18 @@ Definition removeRef (g : graph) (n : N) : graph :=
   upd_node g n (fun nd => if N.eqb (n_ref nd) 0 then nd else with_ref nd (N.pred (n_ref nd))).
 
 (* Circuit::createNode<T>(...) for a node with the given port counts; outputs start with the default type *)
-Definition createNode (g : graph) (nin nout nclk : nat) (req : list constr) : graph :=
-  let nd := mkNode (repeat None nin) (repeat (mkOut default_ctype []) nout) None (repeat None nclk) 0 req in
-  mkGraph (g_nodes g ++ [(g_next g, nd)]) (g_groups g) (g_clocks g) (N.succ (g_next g)) (g_gnext g) (g_cnext g).
+Definition createNodeR (g : graph) (nin nout nclk : nat) (req : list constr) (role : N) : graph :=
+  let nd := mkNode (repeat None nin) (repeat (mkOut default_ctype []) nout) None (repeat None nclk) 0 req role in
+  mkGraph (g_nodes g ++ [(g_next g, nd)]) (g_groups g) (g_clocks g) (g_drv g) (N.succ (g_next g)) (g_gnext g) (g_cnext g).
+Definition createNode (g : graph) (nin nout nclk : nat) (req : list constr) : graph := createNodeR g nin nout nclk req 0.
 
 (* NodeGroup::addChildNodeGroup *)
 Definition addGroup (g : graph) (parent : option N) : graph :=
-  mkGraph (g_nodes g) (g_groups g ++ [(g_gnext g, mkGroup parent [])]) (g_clocks g) (g_next g) (N.succ (g_gnext g)) (g_cnext g).
+  mkGraph (g_nodes g) (g_groups g ++ [(g_gnext g, mkGroup parent [])]) (g_clocks g) (g_drv g) (g_next g) (N.succ (g_gnext g)) (g_cnext g).
 
 (* Circuit::createClock *)
 Definition createClock (g : graph) : graph :=
-  mkGraph (g_nodes g) (g_groups g) (g_clocks g ++ [(g_cnext g, [])]) (g_next g) (g_gnext g) (N.succ (g_cnext g)).
+  mkGraph (g_nodes g) (g_groups g) (g_clocks g ++ [(g_cnext g, [])]) (g_drv g ++ [(g_cnext g, (None, None))]) (g_next g) (g_gnext g) (N.succ (g_cnext g)).
 
 (* Destruction of a node (erasing its unique_ptr from Circuit::m_nodes):
      ~BaseNode : moveToGroup(nullptr); for every clock port detachClock(i);
@@ -437,6 +443,31 @@ Definition destroyNode (g : graph) (n : N) : graph :=
       let g4 := resizeOutputs g3 n 0 in
       with_nodes g4 (del n (g_nodes g4))
   end.
+
+(* ------------------------------------------------------------------------------------------ *)
+(* Clock.cpp: the logic drivers of a clock (Clock::m_clockDriver / m_resetDriver)              *)
+(* ------------------------------------------------------------------------------------------ *)
+Definition clkdrv (g : graph) (c : N) : option N := match get c (g_drv g) with Some d => fst d | None => None end.
+Definition rstdrv (g : graph) (c : N) : option N := match get c (g_drv g) with Some d => snd d | None => None end.
+(* which = true: clock driver (role 1), false: reset driver (role 2) *)
+Definition role_code (which : bool) : N := if which then 1%N else 2%N.
+Definition drv_of (which : bool) (g : graph) (c : N) : option N := if which then clkdrv g c else rstdrv g c.
+Definition role_of (g : graph) (n : N) : N := match getn g n with Some nd => n_role nd | None => 0%N end.
+(* the clock a Signal2Clk / Signal2Rst node is bound to (its clock port 0) *)
+Definition drvnode_of (which : bool) (g : graph) (n : N) : option N :=
+  if N.eqb (role_of g n) (role_code which) then clk_of g (n, 0) else None.
+Definition olist {X} (o : option X) : list X := match o with Some x => [x] | None => [] end.
+
+Definition set_drv (g : graph) (c : N) (which : bool) (v : option N) : graph :=
+  with_drv g (upd c (fun d => if which then (v, snd d) else (fst d, v)) (g_drv g)).
+
+(* void Clock::setLogicClockDriver(Node_Signal2Clk *driver) / setLogicResetDriver(Node_Signal2Rst *driver):
+     if (m_xDriver != nullptr) m_xDriver->setClock(nullptr);   m_xDriver = driver;   m_xDriver->setClock(this);
+   (Node_Signal2Clk::setClock(clk) = attachClock(clk, 0)) *)
+Definition setLogicDriver (which : bool) (g : graph) (c : N) (n : N) : graph :=
+  let g1 := match drv_of which g c with Some old => attachClock g (old, 0) None | None => g end in
+  let g2 := set_drv g1 c which (Some n) in
+  attachClock g2 (n, 0) (Some c).
 
 (* ------------------------------------------------------------------------------------------ *)
 (* clause (ii): types                                                                         *)
@@ -469,7 +500,9 @@ Inductive op :=
 | ODetachClock (a : nport)
 | OAddRef (n : N)
 | ORemoveRef (n : N)
-| ODestroy (n : N).
+| ODestroy (n : N)
+| OCreateDriver (which : bool) (grp : option N)     (* createNode<Node_Signal2Clk / Node_Signal2Rst>, then moveToGroup(grp) *)
+| OSetDriver (which : bool) (c : N) (n : N).        (* Clock::setLogicClockDriver / setLogicResetDriver *)
 
 Definition exec (g : graph) (o : op) : graph :=
   match o with
@@ -490,6 +523,8 @@ Definition exec (g : graph) (o : op) : graph :=
   | OAddRef n => addRef g n
   | ORemoveRef n => removeRef g n
   | ODestroy n => destroyNode g n
+  | OCreateDriver which grp => moveToGroup (createNodeR g 1 0 1 [] (role_code which)) (g_next g) grp
+  | OSetDriver which c n => setLogicDriver which g c n
   end.
 
 Definition ogroupb g (grp : option N) := match grp with Some x => groupb g x | None => true end.
@@ -545,17 +580,35 @@ Definition op_struct_pre (g : graph) (o : op) : bool :=
   | OAddRef n => liveb g n
   | ORemoveRef n => match getn g n with Some nd => negb (N.eqb (n_ref nd) 0) | None => false end
   | ODestroy n => match getn g n with Some nd => N.eqb (n_ref nd) 0 | None => false end   (* HCL_ASSERT_NOTHROW(m_refCounter == 0) *)
+  | OCreateDriver _ grp => ogroupb g grp
+  | OSetDriver which c n =>
+      clockb g c && liveb g n && clk_validb g (n, 0) && N.eqb (role_of g n) (role_code which) &&
+      (match drv_of which g c with Some old => clk_validb g (old, 0) | None => true end) &&     (* the old driver is alive *)
+      (* the node is fresh (bound to nothing), or it is re-bound to the clock it already drives *)
+      (match clk_of g (n, 0) with None => true | Some _ => false end || (if oN_eq_dec (drv_of which g c) (Some n) then true else false))
+  end.
+
+(* Binding of Signal2Clk / Signal2Rst nodes to a clock goes through Clock::setLogic*Driver only; a node that is
+   still named by a clock as its driver is not destroyed (it has side effects, no pass culls it; ~BaseNode does
+   not reset Clock::m_clockDriver). *)
+Definition op_role_pre (g : graph) (o : op) : bool :=
+  match o with
+  | OAddClock n _ => N.eqb (role_of g n) 0
+  | OAttachClock a _ => N.eqb (role_of g (fst a)) 0
+  | ODetachClock a => N.eqb (role_of g (fst a)) 0
+  | ODestroy n => N.eqb (role_of g n) 0 || match clk_of g (n, 0) with None => true | Some _ => false end
+  | _ => true
   end.
 
 Definition op_pre (g : graph) (o : op) : bool :=
-  op_struct_pre g o && forallb (node_ok_at (exec g o)) (touched g o).
+  op_struct_pre g o && op_role_pre g o && forallb (node_ok_at (exec g o)) (touched g o).
 
 (* A call whose precondition fails is not performed (the C++ either throws before writing or the
    call is outside the interface contract). *)
 Definition step (g : graph) (o : op) : graph := if op_pre g o then exec g o else g.
 Definition run (g : graph) (ops : list op) : graph := fold_left step ops g.
 
-Definition empty_graph : graph := mkGraph [] [(0%N, mkGroup None [])] [] 0 1 0.    (* Circuit::Circuit: root group *)
+Definition empty_graph : graph := mkGraph [] [(0%N, mkGroup None [])] [] [] 0 1 0.    (* Circuit::Circuit: root group *)
 
 (* ------------------------------------------------------------------------------------------ *)
 (* the boolean checker run on every dump                                                      *)
@@ -658,6 +711,49 @@ Record Inv (g : graph) : Prop := mkInv {
    absent id are None / []: see WfProofs.no_dangling. *)
 
 Definition AllGrouped (g : graph) : Prop := forall n nd, getn g n = Some nd -> n_grp nd <> None.
+
+(* ------------------------------------------------------------------------------------------ *)
+(* clause (vii): a clock and its logic driver nodes name each other                           *)
+(*   m_clockDriver = n  <->  n is a live Node_Signal2Clk whose clock port 0 is this clock      *)
+(*   (so: no dangling driver, no driver registered elsewhere, no stale second driver)          *)
+(* ------------------------------------------------------------------------------------------ *)
+Definition drivers_ok (g : graph) : Prop :=
+  keys (g_drv g) = keys (g_clocks g) /\
+  consistent N.eq_dec (drvnode_of true g) (fun c => olist (clkdrv g c)) /\
+  consistent N.eq_dec (drvnode_of false g) (fun c => olist (rstdrv g c)).
+
+Fixpoint keys_eqb (a b : list N) : bool :=
+  match a, b with
+  | [], [] => true
+  | x :: r, y :: r' => N.eqb x y && keys_eqb r r'
+  | _, _ => false
+  end.
+
+(* every bound driver node is named by its clock *)
+Definition drivers_fwd_check (g : graph) : bool :=
+  forallb (fun kv =>
+    let r := n_role (snd kv) in
+    if N.eqb r 1 then match nth 0 (n_clks (snd kv)) None with
+                      | Some c => if oN_eq_dec (clkdrv g c) (Some (fst kv)) then true else false
+                      | None => true end
+    else if N.eqb r 2 then match nth 0 (n_clks (snd kv)) None with
+                      | Some c => if oN_eq_dec (rstdrv g c) (Some (fst kv)) then true else false
+                      | None => true end
+    else true) (g_nodes g).
+
+(* every named driver is a live node of the right class bound to exactly this clock *)
+Definition drivers_bwd_check (g : graph) : bool :=
+  forallb (fun kv =>
+    (match fst (snd kv) with Some n => if oN_eq_dec (drvnode_of true g n) (Some (fst kv)) then true else false | None => true end) &&
+    (match snd (snd kv) with Some n => if oN_eq_dec (drvnode_of false g n) (Some (fst kv)) then true else false | None => true end))
+  (g_drv g).
+
+Definition drivers_check (g : graph) : bool :=
+  keys_eqb (keys (g_drv g)) (keys (g_clocks g)) && drivers_fwd_check g && drivers_bwd_check g.
+
+(* the checker run on the dumps of the real circuit *)
+Definition wfd_check (g : graph) : bool := wf_check g && drivers_check g.
+Definition invd_check (g : graph) : bool := inv_check g && drivers_check g.
 
 (* ------------------------------------------------------------------------------------------ *)
 (* requirement table per node kind (used when a dump of the real circuit is imported)         *)
